@@ -240,6 +240,8 @@ def hazard_programs():
             out.append(("order-veclit", VEC(a(10), b(20), T(K(30)))))
             out.append(("order-invoke", INV(T(FN([A_B, XQ], VEC(L(A_B), L(XQ)))), a(10), b(20))))
             out.append(("order-recur", LOOP([(I, K(0)), (ACC, K(0))], IF(P("lt", L(I), K(1)), RECUR(P("inc", a(0)), b(20)), L(ACC)))))
+            out.append(("order-fn-recur", INV(FN([I, ACC], IF(P("lt", L(I), K(1)), RECUR(P("inc", a(0)), b(20)), L(ACC)), name=F), K(0), K(0))))
+            out.append(("order-fn-recur-else", INV(FN([I, ACC], IF(P("lt", L(I), K(1)), DO(T(K(5)), RECUR(P("inc", L(I)), a(10))), VEC(L(ACC), b(20)))), K(0), K(0))))
     return out
 
 
@@ -303,7 +305,19 @@ class Gen:
             step = P("conj", L(acc), self.expr("any", depth - 2, sc))
             res = self.expr(kind, depth - 2, sc)
             return LOOP([(i, K(0)), (acc, VEC())], IF(P("lt", L(i), K(bound)), RECUR(P("inc", L(i)), step), res))
-        if c < 0.72:
+        if c < 0.68:     # counting fn with recur (trampoline)
+            i, acc = r.choice([I, N_]), r.choice([ACC, V])
+            if i == acc:
+                acc = ACC
+            bound = r.randint(1, 3)
+            sc = [(i, "int"), (acc, "vec")] + [s for s in scope if s[0] not in (i, acc)]
+            step = P("conj", L(acc), self.expr("any", depth - 2, sc))
+            res = self.expr(kind, depth - 2, sc)
+            body = IF(P("lt", L(i), K(bound)), RECUR(P("inc", L(i)), step), res)
+            if r.random() < 0.3:
+                body = LET(E, T(self.tk()), body)
+            return INV(FN([i, acc], body, name=r.choice([None, F])), K(0), VEC())
+        if c < 0.74:
             h = None
             if r.random() < 0.7:
                 x = r.choice([E, V])
